@@ -150,6 +150,9 @@ def run_fit(cfg, tape, acc, record=None):
         for b in bs:
             if b[0].dtype != torch.double:
                 out.append(("batching:batch-dtype", dict(dtype=str(b[0].dtype))))
+            if not isinstance(b[1], torch.Tensor) or b[1].dim() != 2 or b[1].shape[1] != b[0].shape[1]:
+                out.append(("batching:negative-batch-malformed", dict(epoch=e, shape=list(getattr(b[1], "shape", [])))))
+                break
             negrows = [tuple(r.tolist()) for r in b[1]]
             if not all(r in pool for r in negrows):
                 out.append(("batching:negative-rows-not-from-" + ("reference-basis-rows" if with_bases else "training-data"), dict(epoch=e, neg=negrows)))
